@@ -323,6 +323,24 @@ def main():
             for f in st['oracle_fail']:
                 m = re.search(r'key=(\S+)', f)
                 failing.append(dict(kind='microdiff-oracle', component=comp, key=m.group(1) if m else f'{comp}:{f[:60]}', what=f))
+        for b in cfg.get('bins', []):
+            # stand-alone harness binaries: <bin> <seed> <n> <prefix> writing .ops/.impl/.stats
+            name, qn, tn = b
+            rundir = os.path.join(CACHE, 'run')
+            os.makedirs(rundir, exist_ok=True)
+            prefix = os.path.join(rundir, f'{pid}-{tier}-{name}')
+            rc, out = sh([os.path.join(TARGET, 'debug', name), str(seed), str(tn if scale_thorough else qn), prefix], timeout=3600)
+            if rc != 0:
+                infra(f'{name} failed rc={rc}:\n{out[-2000:]}')
+            st = parse_stats(prefix + '.stats')
+            stats[name] = st
+            div, _ = diff_with_model(prefix, 'sim:' + name)
+            if div:
+                broken.append(('correspondence-break', json.dumps(div)[:800]))
+                res.setdefault('divergences', []).append(div)
+            for f in st['oracle_fail']:
+                m = re.search(r'key=(\S+)', f)
+                failing.append(dict(kind='bin-oracle', component=name, key=m.group(1) if m else f[:60], what=f))
         for scen in cfg.get('sim', []):
             run_sim(pid, scen, seed, tier if not scale_thorough else 'thorough', stats, failing, broken)
     campaign(tier == 'thorough')
